@@ -113,11 +113,11 @@ class Check(object):
             enc2.enc(lib)
             enc2.enc(ref)
             s2 = enc2.script(list(assumptions), [])
-            self.add(Ob(name + '#assumptions-sat', 'witness', s2, 'sat', None, None, None, (), 60, family=family))
+            self.add(Ob(name + "#assumptions-sat", "witness", s2, "sat", None, None, None, (), 30, family=family))
             # mutation witness: library result doubled must be distinguishable
             enc3 = smt.Encoder()
             s3 = enc3.script(list(assumptions), [tm.cmp('ne', tm.mul(tm.TWO, lib), ref), tm.cmp('ne', ref, tm.ZERO)])
-            self.add(Ob(name + '#mutant-x2', 'witness', s3, 'sat', None, None, None, (), 60, family=family))
+            self.add(Ob(name + "#mutant-x2", "witness", s3, "sat", None, None, None, (), 30, family=family))
         return ob
 
     def paths_clean(self, name, bad_pcs, fns=(), replay=None, key=None, sample=None, family=None):
@@ -193,8 +193,9 @@ class Check(object):
         if k in self.known:
             if ob is not None:
                 ob.status = 'known-finding'
+            if key not in [x for x, _ in self.known_hits]:
+                print('KNOWN-FINDING: property=%s %s [%s]' % (self.pid, self.known[k], key))
             self.known_hits.append((key, self.known[k]))
-            print('KNOWN-FINDING: property=%s %s [%s]' % (self.pid, self.known[k], key))
         else:
             if ob is not None:
                 ob.status = 'violation'
